@@ -378,6 +378,22 @@ func (cc *checkCtx) report(obs []*Obligation, reports []*FuncReport, writeBaseli
 			samples = append(samples, map[string]interface{}{"obligation": name, "path": o.Path, "answer": o.Res.Status, "backend": o.Res.Backend, "query_bytes": o.Res.QueryLen, "seconds": round3(o.Res.Seconds)})
 		}
 	}
+	// the slowest obligations of this run (margin against the solver timeouts)
+	type slowOb struct {
+		Name    string  `json:"obligation"`
+		Seconds float64 `json:"seconds"`
+		Backend string  `json:"backend"`
+	}
+	slow := []slowOb{}
+	for _, o := range obs {
+		if o.Res != nil && o.Res.Seconds > 0.5 {
+			slow = append(slow, slowOb{o.Name(), round3(o.Res.Seconds), o.Res.Backend})
+		}
+	}
+	sort.Slice(slow, func(i, j int) bool { return slow[i].Seconds > slow[j].Seconds })
+	if len(slow) > 8 {
+		slow = slow[:8]
+	}
 	// known findings
 	var kfOut []string
 	for _, f := range cc.findings {
@@ -534,26 +550,28 @@ func (cc *checkCtx) report(obs []*Obligation, reports []*FuncReport, writeBaseli
 	sort.Strings(trusted)
 	ev := &Evidence{PropertyID: cc.prop, Tier: cc.tier, Seed: cc.seed, Level: "proof", Violations: cc.violations, WallS: round3(time.Since(cc.start).Seconds())}
 	ev.Coverage = map[string]interface{}{
-		"obligations":               total,
-		"discharged":                discharged,
-		"checker_cmd":               fmt.Sprintf("/verif/bin/govc check -prop %s -tier %s (VC generation over go/ssa of /repo; back ends z3 5.1.0, cvc5 1.0.3, z3 4.8.12)", cc.prop, cc.tier),
-		"trusted_base":              trusted,
-		"functions_under_contract":  fnInfo,
-		"paths":                     paths,
-		"by_backend":                s.smt.byBack,
-		"solver_s":                  round3(s.smt.solverS),
-		"solver_queries":            s.smt.queries,
-		"single_backend_discharges": s.smt.single,
-		"samples":                   samples,
-		"known_findings":            kfOut,
-		"undecided":                 undec,
-		"unreachable_returns":       unreachable,
-		"reachability_undecided":    reachUnknown,
-		"stale_contracts":           stale,
-		"bounded_standins":          standins,
-		"concordance_runs":          concordRuns,
-		"concordance_mismatches":    concordMismatch,
-		"concordance_notes":         concordNotes,
+		"obligations":                total,
+		"discharged":                 discharged,
+		"checker_cmd":                fmt.Sprintf("/verif/bin/govc check -prop %s -tier %s (VC generation over go/ssa of /repo; back ends z3 5.1.0, cvc5 1.0.3, z3 4.8.12)", cc.prop, cc.tier),
+		"trusted_base":               trusted,
+		"functions_under_contract":   fnInfo,
+		"paths":                      paths,
+		"by_backend":                 s.smt.byBack,
+		"solver_s":                   round3(s.smt.solverS),
+		"solver_queries":             s.smt.queries,
+		"single_backend_discharges":  s.smt.single,
+		"discharged_from_goal_slice": slicedN,
+		"slowest_obligations":        slow,
+		"samples":                    samples,
+		"known_findings":             kfOut,
+		"undecided":                  undec,
+		"unreachable_returns":        unreachable,
+		"reachability_undecided":     reachUnknown,
+		"stale_contracts":            stale,
+		"bounded_standins":           standins,
+		"concordance_runs":           concordRuns,
+		"concordance_mismatches":     concordMismatch,
+		"concordance_notes":          concordNotes,
 	}
 	ev.Assumptions = append([]string{
 		"A-SSA: go/ssa (x/tools v0.29.0) lowers the source as the compiler executes it",
